@@ -153,7 +153,8 @@ Example C15_nonvacuous :
      = VL [V_tree (Node [(0, Node [(1, Leaf (-10))]); (1, Node [(0, Leaf 24); (1, Leaf (-28))])]);
            V_tree (Node [(0, Node [(1, Leaf (-10))]); (1, Node [(0, Leaf 24); (1, Leaf (-28))])]);
            VL [VZ 7; VZ 1; VZ 7]; VL [VZ 7; VZ 1; VZ 7];
-           VL [VL [VZ 2]; VL [VZ 4]; VL [VZ 7]]]
+           VL [VL [VZ 2]; VL [VZ 4]; VL [VZ 7]];
+           VL [VL [VZ 1]; VL [VZ 1]; VL [VZ 1]]; VL [VL [VZ 1]; VL [VZ 1]; VL [VZ 1]]; V_same]
   /\ op_ok la (s_lv (ex_s true)) ex_A /\ op_ok lb (s_lv (ex_s true)) ex_B
   /\ zok (cntb lz (s_lv (ex_s true))) (z_init (s_lv (ex_s true))).
 Proof. repeat split; vm_compute; try reflexivity; repeat constructor. Qed.
